@@ -141,6 +141,8 @@ Proof. induction l as [|x l IH]; [reflexivity|]. simpl. rewrite Z.eqb_refl. exac
 Lemma all_digit_no10 ds : all_digit ds -> no10 ds.
 Proof. intros H. induction H as [|b ds Hb H IH]; constructor; auto. unfold is_digit in Hb. lia. Qed.
 
+Ltac norm_app := cbn [app]; repeat (rewrite <- app_assoc || rewrite <- app_comm_cons); cbn [app].
+
 Section WarcProofs.
   Variable rstate : Type.
   Variable rread : rstate -> N -> option (list Z * rstate).
@@ -379,5 +381,143 @@ Section WarcProofs.
         split; [f_equal; lia|]. split.
         * rewrite HS'. unfold lines_bytes. simpl concat. rewrite <- !app_assoc. reflexivity.
         * unfold lines_bytes in Hlen'. split; [lia|]. split; [lia|exact Hi'].
+  Qed.
+
+  Lemma read_exact_ok : forall fuel rs out r rest, rinv rs ->
+    out ++ rem rs = r ++ rest -> (length out <= length r)%nat -> (length r - length out < fuel)%nat ->
+    exists rs', read_exact fuel rs out (Z.of_nat (length r)) = inl (r, rs') /\ rem rs' = rest /\ rinv rs'.
+  Proof.
+    induction fuel as [|fuel IH]; intros rs out r rest Hi HS Hle Hf; [lia|].
+    destruct (Nat.eq_dec (length out) (length r)) as [E|E].
+    - destruct (app_split_nat _ _ _ _ HS) as [t [Hr Hrem]]; [lia|].
+      assert (t = []) by (destruct t; [reflexivity|rewrite Hr, app_length in E; simpl in E; lia]).
+      subst t. rewrite app_nil_r in Hr. subst r. simpl in Hrem.
+      exists rs. cbn [WarcDefs.read_exact]. rewrite Z.eqb_refl. auto.
+    - cbn [WarcDefs.read_exact].
+      destruct (Z.of_nat (length out) =? Z.of_nat (length r)) eqn:E1; [lia|].
+      assert (Hn : (0 < Z.to_N (Z.of_nat (length r) - Z.of_nat (length out)))%N) by lia.
+      destruct (rread_spec rs _ Hi Hn) as [got [rs' [HR [Hrem [Hlen [Hz Hi']]]]]].
+      rewrite HR.
+      destruct (app_split_nat _ _ _ _ HS Hle) as [t [Hr Hrs]].
+      assert (Hrne : rem rs <> []).
+      { rewrite Hrs. destruct t; [rewrite Hr, app_nil_r in E; congruence|discriminate]. }
+      destruct got as [|g got]; [exfalso; apply Hrne; apply Hz; reflexivity|].
+      destruct (IH rs' (out ++ g :: got) r rest Hi') as [rs'' [HX [Hr'' Hi'']]].
+      + rewrite <- app_assoc. rewrite <- Hrem. exact HS.
+      + rewrite app_length. unfold len in Hlen. lia.
+      + rewrite app_length. simpl. lia.
+      + exists rs''. rewrite HX. auto.
+  Qed.
+
+  Lemma lines_bytes_length hs : (length hs <= length (lines_bytes hs))%nat.
+  Proof.
+    unfold lines_bytes. induction hs as [|h hs IH]; [simpl; lia|].
+    simpl. rewrite !app_length. simpl. lia.
+  Qed.
+
+  (* one WARC record: version line, header lines with exactly one Content-Length
+     giving the body length, blank line, body, CR LF CR LF.  Lines end in LF;
+     a CR before it belongs to the raw line. *)
+  Definition wf_record (r : list Z) : Prop :=
+    exists vline hs blank body,
+      r = vline ++ [10] ++ lines_bytes hs ++ blank ++ [10] ++ body ++ warc_trailer /\
+      no10 vline /\ strip_cr_end vline = warc_version /\ hdrs false hs (length body) /\
+      (blank = [] \/ blank = [13]) /\ Z.of_nat (length r) < alloc_limit.
+
+  Lemma warc_read_ok fuel rs ov r rest : rinv rs -> wf_record r ->
+    ov ++ rem rs = r ++ rest -> (length (r ++ rest) + 1 < fuel)%nat ->
+    exists rs' ov', warc_read fuel rs ov = RecOk _ r rs' ov' /\ ov' ++ rem rs' = rest /\ rinv rs'.
+  Proof.
+    intros Hi [vline [hs [blank [body [Er [Hnv [Hsv [Hh [Hbl Hsz]]]]]]]]] HS Hf.
+    assert (Hrem_le : (length (rem rs) <= length (r ++ rest))%nat).
+    { rewrite <- HS, app_length. lia. }
+    unfold WarcDefs.warc_read.
+    (* the version line *)
+    assert (HS0 : ov ++ rem rs = [] ++ vline ++ 10 :: (lines_bytes hs ++ blank ++ [10] ++ body ++ warc_trailer) ++ rest).
+    { rewrite HS, Er. norm_app. reflexivity. }
+    destruct (hline_ok fuel rs ov 0 0 [] vline _ Hi HS0 eq_refl Hnv ltac:(lia) ltac:(lia) ltac:(lia))
+      as [out1 [rs1 [HL [HS1 [Hlen1 [Hrl1 [_ Hi1]]]]]]].
+    rewrite HL. rewrite Hsv. rewrite list_eqb_refl. cbn [negb].
+    (* the header lines *)
+    assert (HS1' : out1 ++ rem rs1 = (vline ++ [10]) ++ lines_bytes hs ++ blank ++ 10 :: (body ++ warc_trailer ++ rest)).
+    { rewrite HS1. norm_app. reflexivity. }
+    pose proof (lines_bytes_length hs) as Hlb.
+    assert (Hrl : (length r = length vline + 1 + length (lines_bytes hs) + length blank + 1 + length body + 4)%nat).
+    { rewrite Er. rewrite !app_length. simpl. change (length warc_trailer) with 4%nat. lia. }
+    assert (Hvne : warc_version <> []) by discriminate.
+    assert (Hp1 : length (vline ++ [10]) = S (0 + length vline)) by (rewrite app_length; simpl; lia).
+    assert (Hc1 : (S (0 + length vline) <= length out1)%nat) by lia.
+    assert (Hf1 : (length hs < fuel)%nat) by (rewrite app_length in Hf; lia).
+    assert (Hf2 : (length (rem rs1) < fuel)%nat) by lia.
+    destruct (header_ok hs false (length body) Hh fuel fuel rs1 out1 (S (0 + length vline)) warc_version 0
+                        (vline ++ [10]) (body ++ warc_trailer ++ rest) blank Hi1 Hvne HS1' Hp1 Hc1 Hbl Hf1 Hf2)
+      as [out2 [rs2 [HH [HS2 [Hlen2 [Hrl2 Hi2]]]]]].
+    rewrite HH. cbv iota.
+    set (consumed2 := (S (0 + length vline) + length (lines_bytes hs) + length blank + 1)%nat) in *.
+    assert (Htot : (Z.of_nat consumed2 + Z.of_nat (length body) mod size_max + Z.of_N warc_trailer_len) mod size_max
+                   = Z.of_nat (length r)).
+    { change (Z.of_N warc_trailer_len) with 4. unfold alloc_limit in Hsz. unfold size_max.
+      rewrite (Z.mod_small (Z.of_nat (length body))) by lia.
+      rewrite Z.mod_small by (unfold consumed2; lia). unfold consumed2. lia. }
+    rewrite Htot.
+    assert (HS2' : out2 ++ rem rs2 = r ++ rest).
+    { rewrite HS2, Er. norm_app. reflexivity. }
+    assert (Htrail : list_eqb (skipn (length r - N.to_nat warc_trailer_len) r) warc_trailer = true).
+    { change (N.to_nat warc_trailer_len) with 4%nat.
+      assert (Er2 : r = (vline ++ [10] ++ lines_bytes hs ++ blank ++ [10] ++ body) ++ warc_trailer).
+      { rewrite Er. norm_app. reflexivity. }
+      set (X := vline ++ [10] ++ lines_bytes hs ++ blank ++ [10] ++ body) in *.
+      assert (HX : length X = (length r - 4)%nat).
+      { rewrite Er2, app_length. change (length warc_trailer) with 4%nat. lia. }
+      rewrite Er2 at 2. rewrite skipn_app. rewrite skipn_all2 by lia. rewrite app_nil_l.
+      replace (length r - 4 - length X)%nat with 0%nat by lia.
+      apply list_eqb_refl. }
+    destruct (Z.of_nat (length r) <? Z.of_nat (length out2)) eqn:Elt.
+    - (* the whole record and more is already in the buffer *)
+      assert (Hle : (length r <= length out2)%nat) by lia.
+      destruct (app_split_nat _ _ _ _ (eq_sym HS2') Hle) as [t [Ho Hr]].
+      rewrite Nat2Z.id.
+      assert (Hfr : firstn (length r) out2 = r).
+      { rewrite Ho. rewrite firstn_app, firstn_all, Nat.sub_diag. simpl. apply app_nil_r. }
+      rewrite Hfr. rewrite Htrail.
+      exists rs2, (skipn (length r) out2). split; [reflexivity|]. split; [|exact Hi2].
+      rewrite Ho. rewrite skipn_app, skipn_all, Nat.sub_diag. simpl. symmetry. exact Hr.
+    - assert (Hal : (Z.of_nat (length r) >=? alloc_limit) = false) by lia.
+      rewrite Hal.
+      destruct (read_exact_ok fuel rs2 out2 r rest Hi2 HS2') as [rs3 [HX [Hr3 Hi3]]]; [lia| |].
+      { rewrite app_length in Hf. lia. }
+      rewrite HX. rewrite Htrail.
+      exists rs3, []. split; [reflexivity|]. split; [exact Hr3|exact Hi3].
+  Qed.
+
+  Lemma warc_read_all_ok : forall recs n fuel rs ov, rinv rs -> Forall wf_record recs ->
+    ov ++ rem rs = concat recs -> (length recs < n)%nat -> (length (concat recs) + 1 < fuel)%nat ->
+    warc_read_all n fuel rs ov = AllOk recs.
+  Proof.
+    induction recs as [|r recs IH]; intros n fuel rs ov Hi Hwf HS Hn Hf.
+    - simpl in HS. apply app_eq_nil in HS. destruct HS as [Ho Hr]. subst ov.
+      destruct n as [|n]; [lia|]. destruct fuel as [|fuel]; [lia|].
+      destruct (read_more_end rs Hi Hr) as [rs' HM].
+      cbn [WarcDefs.warc_read_all]. unfold WarcDefs.warc_read. cbn [WarcDefs.hline].
+      change (find_from [] 0) with (@None nat). rewrite HM. reflexivity.
+    - inversion Hwf as [|? ? Hr Hrs]; subst.
+      destruct n as [|n]; [lia|].
+      simpl concat in HS, Hf.
+      destruct (warc_read_ok fuel rs ov r (concat recs) Hi Hr HS Hf) as [rs' [ov' [HR [HS' Hi']]]].
+      cbn [WarcDefs.warc_read_all]. rewrite HR.
+      rewrite (IH n fuel rs' ov' Hi' Hrs HS'); [reflexivity| |].
+      + simpl in Hn. lia.
+      + rewrite app_length in Hf. lia.
+  Qed.
+
+  (* C17 records_exact: whatever pieces the source delivers, the reader returns
+     exactly the records, byte for byte, and then a clean end of file *)
+  Theorem records_exact_proof : forall recs rs n fuel,
+    rinv rs -> Forall wf_record recs -> rem rs = concat recs ->
+    (length recs < n)%nat -> (length (concat recs) + 1 < fuel)%nat ->
+    warc_read_all n fuel rs [] = AllOk recs.
+  Proof.
+    intros recs rs n fuel Hi Hwf Hrem Hn Hf.
+    apply warc_read_all_ok; auto.
   Qed.
 End WarcProofs.
